@@ -43,7 +43,8 @@ Record counters := mkcnt {
 }.
 Definition cnt0 : counters := mkcnt 0 0 0 0 0 0.
 
-Inductive op := RouteInfo | ContentType | ResponseFormat (offers : nat) | Authorize | BindAndValidate | ResetAuth.
+Inductive op := RouteInfo | ContentType | ResponseFormat (offers : nat) | Authorize | BindAndValidate | ResetAuth
+  | ServeFresh.   (* a fresh copy of the request is served by the whole handler: nothing is threaded back *)
 
 (* what a call returns: a small code for the value, and whether the returned request value is the one
    passed in (same) or a fresh shallow copy carrying a new cache entry *)
@@ -54,6 +55,7 @@ Inductive res :=
 | RAuth (code : nat)                   (* 0 = no auth needed (nil, nil, nil), 1 = principal, 2 = anonymous, 3 = refused 401/err, 4 = forbidden *)
 | RBind (errs : list nat)
 | RReset
+| RServed
 | RSkipped.                            (* Authorize/BindAndValidate before any route is known: not issued *)
 
 Definition bump_lookup c := mkcnt (S (n_lookup c)) (n_ctparse c) (n_negotiate c) (n_authn c) (n_authz c) (n_bind c).
@@ -167,6 +169,7 @@ Definition step (st : static) (s : state) (o : op) : state * res * bool (* same 
       end
     end
   | ResetAuth => (mkstate (set_auth r false false) c, RReset, false)
+  | ServeFresh => (s, RServed, true)
   end.
 
 Definition step_state st s o := fst (fst (step st s o)).
